@@ -93,10 +93,13 @@ def refill(R, prog):
     roff, rsize = pn[0], pn[1]
     BUF = K.one(K.local_names_init_by(f, lambda e, i: e['k'] == 'construct' and 'IOVector' in (e.get('fn') or '') and 'allocator_' in f.show(i)), 'refill buffer (IOVector on the store allocator)', f)
     RBUF = K.one(K.local_names_init_by(f, lambda e, i: e['k'] == 'construct' and 'IOVector' in (e.get('fn') or '') and (BUF + '.iovec()') in f.show(i)), 'view of the refill buffer', f)
-    RET = K.one(K.locals_assigned_from_call(f, r'RangeLock::try_lock_wait$') or K.locals_assigned_from_call(f, r'::preadv2$'), 'result local', f)
+    LOCKRETS = K.locals_assigned_from_call(f, r'RangeLock::try_lock_wait$')       # result of the range lock
+    READRETS = K.locals_assigned_from_call(f, r'::preadv2$')                        # result of the source read (may be the same local)
+    RETS = LOCKRETS | READRETS
+    R.require(len(READRETS) >= 1, 'C17: do_refill_range no longer keeps the result of the source read in a local')
     REFILLING = K.one(K.locals_assigned_from_call(f, r'::load$'), 'sampled refilling counter', f)
     MAXR = K.one([d['name'] for d in f.decls if d['kind'] == 'staticlocal' and 'int' in (d.get('type') or '')], 'max refilling (static)', f)
-    CN = K.canon({'buffer': BUF, 'refill_buf': RBUF, 'ret': RET, 'refilling': REFILLING, 'max_refilling': MAXR})
+    CN = K.canon({'buffer': BUF, 'refill_buf': RBUF, 'refilling': REFILLING, 'max_refilling': MAXR})
     srcread = lambda ev: ev.kind == 'call' and (ev.callee() or '').endswith('::preadv2') and 'src_file_' in (ev.recv_path() or '') and (ev.arg_show(0) or '') == BUF + '.iovec()'
     locked = lambda ev: ev.kind == 'call' and ev.callee() == 'RangeLock::try_lock_wait'
     unlock = lambda ev: ev.kind == 'call' and ev.callee() == 'RangeLock::unlock' and ev.arg_path(0) == roff and ev.arg_path(1) == rsize
@@ -104,7 +107,7 @@ def refill(R, prog):
     cachew = lambda ev: ev.kind == 'call' and ((ev.callee() or '').endswith('::do_pwritev2') or ((ev.callee() or '').endswith('::unpin_wbuf') and ev.f.const(ev.e['args'][1]) == 0))
     copyout = lambda ev: ev.kind == 'call' and (ev.callee() or '').endswith('::memcpy_to') and (ev.recv_path() or '') == RBUF
     seen = an.SeenTracker([('locked', locked), ('read', srcread), ('unlocked', unlock), ('async', asyncw)])
-    res = an.run(G, [seen, an.GuardTracker(lambda k: ((re.search(r'(^|[^\w.>])%s($|[^\w])' % re.escape(RET), k) is not None or ('preadv2(%s' % BUF) in k or 'try_lock_wait' in k) or k.startswith('%s <' % REFILLING)) and 'tr.' not in k, def_names={RET})])
+    res = an.run(G, [seen, an.GuardTracker(lambda k: ((any(re.search(r'(^|[^\w.>])%s($|[^\w])' % re.escape(n), k) for n in RETS) or ('preadv2(%s' % BUF) in k or 'try_lock_wait' in k) or k.startswith('%s <' % REFILLING)) and 'tr.' not in k, def_names=set(RETS))])
 
     def full_read(st):
         st = CN(st)
@@ -118,7 +121,7 @@ def refill(R, prog):
     K.check_at(R, P + '.K8', G, res, srcread, require=lambda st, ev: 'S:locked' in st and ev.arg_path(2) == roff,
                key_fn=lambda ev: P + '.K8:ICacheStore::do_refill_range:range-locked-before-source-read',
                describe=lambda ev: 'the refill range is locked before the source is read into the refill buffer at refill_off', min_sites=1, what='source read')
-    lockfail = lambda st: any(re.match(r'^G:\[.*try_lock_wait\(.*\)\] < 0=T$', k) or k == 'G:ret < 0=T' for k in CN(st)) and 'S:read' not in st
+    lockfail = lambda st: any(re.match(r'^G:\[.*try_lock_wait\(.*\)\] < 0=T$', k) or any(k == 'G:%s < 0=T' % n for n in LOCKRETS) for k in st) and 'S:read' not in st
     K.check_at(R, P + '.K7', G, res, lambda ev: ev.kind == 'exit',
                require=lambda st, ev: 'S:locked' not in st or (lockfail(st) and 'S:unlocked' not in st) or
                (not lockfail(st) and ('S:unlocked' in st or 'S:async' in st or 'G:refilling < max_refilling=T' in CN(st))),
